@@ -895,6 +895,22 @@ def _py_hasattr(o, name):
         return False
 
 
+_NODEFAULT = object()
+
+
+def _py_getattr(o, name, default=_NODEFAULT):
+    try:
+        return lookup_attr(None, o, name, None)
+    except ModelFault as e:
+        if e.kind == "AttributeError" and default is not _NODEFAULT:
+            return default
+        raise
+
+
+def _py_setattr(o, name, value):
+    store_attr(None, o, name, value, None)
+
+
 def _py_super(*a):
     raise AnalysisError("super() outside of a method call")
 
@@ -906,6 +922,7 @@ BUILTINS = {
     "enumerate": enumerate, "zip": zip, "int": int, "bool": bool,
     "str": str, "abs": abs, "any": any, "all": all, "float": float,
     "isinstance": _py_isinstance, "hasattr": _py_hasattr,
+    "getattr": _py_getattr, "setattr": _py_setattr,
     "frozenset": frozenset, "repr": repr, "bytes": bytes,
     "True": True, "False": False, "None": None,
     "ValueError": ExcClass("ValueError"), "KeyError": ExcClass("KeyError"),
